@@ -1,2 +1,24 @@
-(* C19 (statements follow) *)
-From GJS Require Import Base Regex Schema GoType Exec.
+(* C19 - generated unmarshalers are total and all-or-nothing.
+   Statements only; every proof is `exact <lemma>`; Print Assumptions under each.
+   In the model a method has three outcomes besides running out of fuel: Ok v, Err, Crash (a panic,
+   or code that cannot have compiled).  All-or-nothing is how the method is laid out
+   (json_formatter.go: decode into the local `plain`, validate, assign `*j` last): the model's only
+   way to change the destination is the Ok result.  Totality (no Crash) is the typing invariant
+   "every validator names a field of the shape it dereferences": see C19_total in Proofs/WfP.v. *)
+From GJS Require Import Base Regex Schema GoType Gen Exec Valid ExecP GenP CoreP.
+
+Theorem C19_atomic : forall fmt_ok env dest f t j,
+  snd (unmarshal_into fmt_ok env dest f t j) = false -> fst (unmarshal_into fmt_ok env dest f t j) = dest.
+Proof. exact unmarshal_into_atomic. Qed.
+Print Assumptions C19_atomic.
+
+(* refuted in full (D30): the additional-properties block is emitted without a nil guard; null
+   panics a struct with typed additionalProperties *)
+Definition addl_schema : schema :=
+  Sch (mkC [SObject] None None [] 0 0 0 0 None None (mkBounds None None None None) None None)
+      [([97]%N, Sch (mkC [SString] None None [] 0 0 0 0 None None (mkBounds None None None None) None None) [] None false None [] [])]
+      (Some (Sch (mkC [SNumber] None None [] 0 0 0 0 None None (mkBounds None None None None) None None) [] None false None [] [])) false None [] [].
+Theorem C19_refuted_addl_null :
+  exists t b, gen (fun s => s) (mkCfg false false) [] 20 MDeclared None false addl_schema [82]%N = Done (t, b) /\
+    dec (fun _ _ => true) [] 20 t JNull = Crash.
+Proof. eexists. eexists. split; [vm_compute; reflexivity|]. vm_compute. reflexivity. Qed.
